@@ -12,11 +12,11 @@ CHECKS = {
     "C18": dict(
         pkg="c18", race=False,
         technique="lock-step reference-model monitor + reset-twin relational monitor over seeded op sequences",
-        level_text="Every Add/Get/Reset/Update result of the real primitives is compared online with an independent reference fold "
+        level_text="Reset overlapping Add (300 rounds per case; free-running, or both queued behind an identity Update that holds the instance lock and yields): afterwards the instance equals, bit for bit, a new instance with or without that sample. Every Add/Get/Reset/Update result of the real primitives is compared online with an independent reference fold "
                    "(minimum, latest, warm-up mean, hull, variance>=0), reset twins are compared bit-for-bit, the flag is checked against "
                    "observed value changes, and window folds against a reference and a permutation - over thousands (quick) to hundreds of "
                    "thousands (thorough) of seeded sequences. Exploration: it shows the property on the sequences run, not for all.", shards=(4, 16), timeout_s=(300, 1800),
-        require=["adds_changing_value", "adds_not_changing_value", "reset_twin_pairs", "window_folds", "hull_checks",
+        require=["concurrent_reset_rounds", "adds_changing_value", "adds_not_changing_value", "reset_twin_pairs", "window_folds", "hull_checks",
                  "warmup_mean_checks", "concurrent_minimum_rounds", "variance_alpha_twin_pairs", "concurrent_single_update_rounds"],
         rule="PRNG op sequences (add/get/update/reset) over samples in [1,2^50] for each primitive (minimum, single, "
              "exp-average, simple EMA, moving variance, windowless percentile) run in lock-step with a reference fold; "
@@ -32,7 +32,7 @@ CHECKS = {
         level_text="After every OnSample (run under recover) of AIMD/Vegas/Gradient/Gradient2, bare and wrapped by windowed/traced limits, the "
                    "reported estimate is checked against [max(1,min), max(max,initial)] (AIMD: max(initial, max in-flight seen + increment)); "
                    "int(NaN) shows up as MinInt64 and trips the same bound. Hostile inputs: rtt 0/1/baseline/up to 2^62, in-flight 0..2^31-1, "
-                   "drop-only phases; one case in twelve asks for the default minimum (0) together with a queue allowance that is 0 for small limits "
+                   "drop-only phases; one shard in four each is started with both pre-computed tables enlarged, only the sqrt table, only the log10 table; one case in twelve asks for the default minimum (0) together with a queue allowance that is 0 for small limits "
                    "(fixed 0 or limit/10). Exploration over seeded sequences, not a proof for all inputs.",
         require=["samples", "estimate_changes", "cases_with_rtt_zero", "cases_with_drop_only_phase", "cases_default_minimum_and_zero_queue_allowance"],
         rule="PRNG valid configuration (min<=initial incl. initial>max, smoothing/backoff in (0,1], queue allowance<=max) x wrapper "
@@ -59,12 +59,12 @@ CHECKS = {
     "C07": dict(
         pkg="c07", race=False, shard_env={"GO_CONCURRENCY_LIMIT_LOG10ROOT_PRE_COMPUTE": "4096", "GO_CONCURRENCY_LIMIT_SQRT_PRE_COMPUTE": "4096"}, shards=(4, 16), timeout_s=(300, 1800),
         technique="before/after monitor on app-limited samples + bounded-progress (stuck-detection) monitor on healthy saturated runs from seeded reachable states",
-        level_text="From PRNG-generated reachable states (valid config + prior history with drops, zero and huge RTTs): app-limited non-drop samples "
+        level_text="Gradient recovery runs with probing disabled last 2100 samples and must never collapse at a probe. From PRNG-generated reachable states (valid config + prior history with drops, zero and huge RTTs): app-limited non-drop samples "
                    "(2*inFlight < reported estimate; AIMD inFlight < limit, including the edge value) must not raise the estimate; healthy saturated "
                    "runs at the baseline RTT must add the increment on every sample (AIMD), grow by at least the queue allowance per non-probe sample "
                    "(Gradient), or bring the reported estimate to ceiling-1 within an analytic sample bound (Vegas, Gradient2); a run that stopped "
                    "rising below the ceiling is a violation, one still rising at the cap is inconclusive. Exploration.",
-        require=["app_limited_samples", "app_limited_samples_at_the_edge", "healthy_samples", "recovered/aimd", "recovered/vegas",
+        require=["gradient_recovery_runs_with_probing_disabled", "app_limited_samples", "app_limited_samples_at_the_edge", "healthy_samples", "recovered/aimd", "recovered/vegas",
                  "recovered/gradient", "recovered/gradient2", "gradient_probes_observed", "concurrent_saturated_rounds"],
         rule="case = (algorithm, valid config, random prefix of 0-150 hostile/drop-heavy/benign samples) then app-limited samples or a healthy "
              "saturated run; non-trivial = run started below ceiling-1 (always for app-limited cases); distinct = distinct (config, start estimate, history length).",
@@ -74,10 +74,10 @@ CHECKS = {
     "C08": dict(
         pkg="c08", race=False, shards=(4, 16), timeout_s=(300, 1800),
         technique="relational two-run monitor: identically seeded twin instances, same history, final sample differing only in RTT",
-        level_text="Twin instances of Vegas/Gradient/Gradient2 are built under the same math/rand seed (identical probe decisions), replay the same "
+        level_text="Three state classes: PRNG history (19/24), estimate exactly at its maximum (3/24: initial = max, app-limited history), estimate above its maximum (2/24: initial > max). Twin instances of Vegas/Gradient/Gradient2 are built under the same math/rand seed (identical probe decisions), replay the same "
                    "PRNG prefix, then receive a final sample with rtt_lo < rtt_hi (both >= current baseline, same in-flight and drop flag); the "
                    "monitor requires estimate(rtt_hi) <= estimate(rtt_lo). Twins that diverge before the final sample are inconclusive. Exploration over seeded pairs.",
-        require=["pairs", "pairs_strictly_ordered", "pairs_where_estimate_moved"],
+        require=["pairs_from_an_estimate_exactly_at_its_maximum", "pairs_from_an_estimate_above_its_maximum", "pairs", "pairs_strictly_ordered", "pairs_where_estimate_moved"],
         rule="pair = (algorithm, valid config, prefix of 0-120 samples, rtt_lo/rtt_hi with relative gap >= 1e-6 and <= 2^40, in-flight, drop flag); "
              "non-trivial = at least one twin's estimate moved on the final sample; distinct = distinct (config, prefix length, rtt pair, in-flight, drop).",
         assumptions=COMMON_ASSUME + ["math/rand.Seed is effective for the library's jitter (harness go.mod 'go 1.23' keeps randseednop=0); twins are checked for equal state before the final sample"],
@@ -90,8 +90,8 @@ CHECKS = {
                    "moves backwards; age of the source < multiplier*(max estimate+1)+1 (Vegas) / < 2*interval (Gradient); resets neither overdue nor "
                    "earlier than the documented jitter range allows. Jitter is reproducible through math/rand.Seed. One Vegas case in four is built by "
                    "NewDefaultVegasLimit / NewDefaultVegasLimitWithLimit / the full constructor with probeMultiplier -1 or 0 (documented default 30), half of "
-                   "those with the limit pinned by app-limited samples. Exploration.",
-        require=["cases_with_default_probe_multiplier/NewDefaultVegasLimit", "cases_with_default_probe_multiplier/WithRegistry(probeMultiplier=-1)", "samples", "baseline_resets_observed", "baseline_raises_observed", "baseline_lowerings_observed", "cases/vegas", "cases/gradient"],
+                   "those with the limit pinned by app-limited samples; one in three of the others is handed a caller-supplied baseline measurement. Exploration.",
+        require=["cases_with_caller_supplied_baseline_measurement", "cases_with_default_probe_multiplier/NewDefaultVegasLimit", "cases_with_default_probe_multiplier/WithRegistry(probeMultiplier=-1)", "samples", "baseline_resets_observed", "baseline_raises_observed", "baseline_lowerings_observed", "cases/vegas", "cases/gradient"],
         rule="case = (Vegas with max<=40 and multiplier in {1..30} or Gradient with interval in {3,10,50,200,disabled}, math/rand seed, 1500-4000 "
              "samples with unique RTTs whose level steps up/down); non-trivial = at least one reset and one lowering of the baseline observed; "
              "distinct = distinct (config, seed, length, middle RTT).",
@@ -100,13 +100,13 @@ CHECKS = {
     "C16": dict(
         pkg="c16", race=False, shards=(4, 16), timeout_s=(300, 1800),
         technique="per-operation monitor: recording change listeners vs EstimatedLimit() before/after every OnSample/SetLimit",
-        level_text="For AIMD/Vegas/Gradient/Gradient2/Settable/Fixed and a scripted recorder, bare and under Windowed, Traced and Traced(Windowed): "
+        level_text="Concurrent variant: in half of the cases 2-8 listeners are registered at the same moment from different goroutines; if any listener heard of a change, all did. For AIMD/Vegas/Gradient/Gradient2/Settable/Fixed and a scripted recorder, bare and under Windowed, Traced and Traced(Windowed): "
                    "around every operation the monitor compares EstimatedLimit() before/after, requires every previously registered listener to "
                    "have been called if it changed, requires the last notified value to equal the new estimate, requires the wrapper's estimate "
                    "to equal the delegate's, and requires Traced to forward the sample unchanged. Listeners are registered at random points. "
                    "A concurrent variant (2-6 goroutines feeding one sample-driven algorithm, listeners pausing before they record) requires every "
                    "listener's last value to equal EstimatedLimit() at quiescence. Exploration.",
-        require=["operations", "estimate_changes", "notifications_checked", "listeners_registered", "traced_forward_checks",
+        require=["concurrent_registration_cases", "operations", "estimate_changes", "notifications_checked", "listeners_registered", "traced_forward_checks",
                  "concurrent_cases", "concurrent_listener_final_checks"],
         rule="case = (inner limit kind + valid config, wrapper chain, 40-400 ops: OnSample benign/hostile, SetLimit for settable, late NotifyOnChange); "
              "non-trivial = estimate changed at least once with a listener registered; distinct = distinct (config, wrapper, op count, listener count, last op).",
@@ -118,7 +118,7 @@ CHECKS = {
         level_text="Sequential: after every acquire/release/SetLimit/add/remove step on both partitioned strategies the grant decision (the iff of the "
                    "statement), total busy/limit, every bin count and every bin share are compared with an integer-arithmetic reference model "
                    "(dyadic and decimal fractions, zero fractions, unknown/unmatched/empty keys, overlapping predicates, limits set to <=0; lookup partition objects named differently from the key they are registered under, re-adding a registered key "
-                   "must be refused). "
+                   "must be refused; the bundled string matcher in both flavours with patterns in either case). "
                    "Concurrent: 2-6 goroutines on one strategy, client-boundary histories on a logical clock checked with porcupine against the "
                    "same model, bins must be zero at quiescence. Storms: 2-5 concurrent SetLimit callers, and AddPartition racing with a "
                    "limit change (barrier-released, 120 rounds): at quiescence every bin share must be the share of the limit in force. "
@@ -140,9 +140,10 @@ CHECKS = {
                    "outcome equals the consulted classifier's result (success for an error-free stream op; default classifiers when none configured); "
                    "result and error returned by identity; on refusal nothing else touched and the status code equals the limit-exceeded "
                    "classifier's (any of the 16 non-OK codes); every classifier, handler and invoker must be handed the call's own request / reply / info / "
-                   "error / limiter objects (identity). All option combinations incl. defaults, random RecvMsg/SendMsg sequences, plus a shared interceptor over a real "
+                   "error / limiter objects (identity). The two stream response classifiers are configured independently (a classifier serves one direction only; the other runs on the default); a second stream through "
+                   "another interceptor is opened and used in the middle of the first stream's handler. All option combinations incl. defaults, random RecvMsg/SendMsg sequences, plus a shared interceptor over a real "
                    "DefaultLimiter whose in-flight must return to 0. Exploration over seeded inputs.",
-        require=["unary_calls", "stream_ops", "granted_calls_checked", "refused_calls_checked", "send_ops_on_recording_send_limiter",
+        require=["stream_ops_with_only_one_response_classifier_configured", "streams_opened_while_another_is_open", "unary_calls", "stream_ops", "granted_calls_checked", "refused_calls_checked", "send_ops_on_recording_send_limiter",
                  "recv_ops_on_recording_recv_limiter", "shared_interceptor_calls", "calls_with_a_dead_context"],
         rule="case = unary client/server call (grant/refuse, handler result, classifier result, option subset) or a stream with 1-12 RecvMsg/SendMsg ops "
              "(each with its own grant/error/classifier result) or a shared-interceptor stress; non-trivial = every judged case; distinct = distinct "
@@ -159,11 +160,11 @@ CHECKS = {
                    "go-metrics registry contents and the captured dogstatsd wire lines (kind suffix, prefixed name, value), the address-based datadog "
                    "constructor through a loop-back UDP socket playing the agent (default prefix), and polled gauges of a started registry: suppliers that "
                    "report (v, true), never a value (ok=false) or a value only for their first polls - the backend must hold the reported values and nothing for the "
-                   "supplier without values. Life cycle: seeded "
+                   "supplier without values; the queue_size gauge in a bubble while callers come and go, incl. a time-out / cancellation colliding with the hand-off. Life cycle: seeded "
                    "Start/Stop/RegisterGauge sequences (sequential and concurrent) with a census of live poller goroutines (1 iff started, never 2, 0 "
                    "after Stop returns), frozen supplier counts while stopped, and a watchdog that classifies a hang as the Stop-vs-tick wait-for cycle "
                    "from the goroutine dump. Exploration.",
-        require=["strategy_decisions", "partition_decisions", "limit_samples", "limit_drop_samples", "gauge_reads", "forwarded_samples_checked",
+        require=["queue_gauge_dynamic_cases", "strategy_decisions", "partition_decisions", "limit_samples", "limit_drop_samples", "gauge_reads", "forwarded_samples_checked",
                  "polled_gauge_checks", "forwarded_samples_checked_via_udp", "lifecycle_states_checked", "frozen_poll_count_checks", "live_poll_observations", "lifecycle_cases/gometrics",
                  "lifecycle_cases/datadog", "concurrent_lifecycle_cases", "concurrent_strategy_sample_rounds"],
         rule="case kinds: strategy op sequence (30-80 ops), partitioned strategy op sequence, limit sample sequence (30-90 samples, every limit kind incl. "
@@ -175,14 +176,14 @@ CHECKS = {
     "C09": dict(
         pkg="c09", race=False, shards=(4, 16), timeout_s=(600, 3000),
         technique="recording delegate limit + reference fold, DefaultLimiter driven on a synctest virtual clock (exact RTTs / window boundaries), WindowedLimit on explicit timestamps",
-        level_text="A recording core.Limit receives what the limiter/windowed limit delivers; a reference fold of the qualifying completions since the last "
+        level_text="Concurrent windowed variant: while a slow (yielding) delegate is handed window 1 another goroutine reports samples incl. a drop; exactly one delivered window carries the drop flag. A recording core.Limit receives what the limiter/windowed limit delivers; a reference fold of the qualifying completions since the last "
                    "delivery runs beside it. Separate sub-oracles: delivered values differ from fold (min RTT resp. mean RTT, max in-flight, drop flag iff any "
                    "drop in the window), delivery of an unready window, delivery before the previous window's period elapsed, ready window not "
                    "delivered at a qualifying completion, delivery triggered by an ignored / below-threshold completion. A third variant completes 2-3 "
                    "tokens at the same virtual instant from different goroutines (yield at the verif point before the update lock) and keeps the set of "
                    "candidate pending folds: a delivery must be candidate + non-empty subset of the simultaneous completions with more than windowSize "
                    "successes. Exploration over seeded histories.",
-        require=["default_completions", "default_windows_delivered", "default_nonqualifying_completions", "default_windows_with_drop_before_last_completion",
+        require=["windowed_concurrent_rounds", "default_completions", "default_windows_delivered", "default_nonqualifying_completions", "default_windows_with_drop_before_last_completion",
                  "windowed_samples", "windowed_windows_delivered", "windowed_samples_below_threshold", "windowed_windows_with_drop_before_last_sample",
                  "windowed_drop_only_windows_delivered", "simultaneous_rounds", "simultaneous_windows_delivered", "simultaneous_rounds_at_the_readiness_boundary"],
         rule="default: 150-650 acquire/sleep/complete steps with 1-6 holders, outcomes success/ignore/dropped, durations 1ns-8ms, windowSize 10-30, "
@@ -199,7 +200,7 @@ CHECKS = {
                    "caller's 1st/2nd failed delegate attempt, between backlog push and select (verif hooks), when asleep, at the failed retry of a woken "
                    "loser, while unblock hands to a waiter that is being cancelled / timing out at the same instant, and with the broadcast delayed after "
                    "the inner release, and with every holder completing at the same moment from its own goroutine over a slow (yielding) delegate - at every snapshot "
-                   "a slot that is counted busy although nobody holds it while callers are blocked is a violation too - for blocking (timeout 0 / T), deadline and queue FIFO/LIFO x eviction on/off, capacity 1-2, 1-3 waiters, all "
+                   "a slot that is counted busy although nobody holds it while callers are blocked is a violation too; a second holder completing at the instant a release's hand-off attempt is refused by the delegate - for blocking (timeout 0 / T), deadline and queue FIFO/LIFO x eviction on/off, capacity 1-2, 1-3 waiters, all "
                    "outcomes. One case in fifty is a real-time stress run (4-16 goroutines, zero hold, timeout 0 / 1h, 200 iterations each) whose "
                    "stuck state (no progress for two watchdog periods, capacity free, workers inside Acquire) is a violation. Exploration of forced interleavings, not all schedules.",
         require=["scenarios", "quiescent_snapshots", "scenarios_reaching_their_schedule_point", "snapshots_with_blocked_callers",
@@ -218,9 +219,11 @@ CHECKS = {
                    "refuses; after each release exactly one waiter must be granted and it "
                    "must be the oldest (FIFO) / newest (LIFO) still waiting. Releases that coincide with a departure - the holder completes in the same breath as a "
                    "caller is cancelled (eviction on), or at the very virtual instant the oldest caller's backlog time-out fires - must still grant exactly one caller: "
-                   "the next in order counting the departing caller or the next among those who stay. Every constructor: FromConfig{fifo,lifo,default}, WithDefaults, the "
+                   "the next in order counting the departing caller or the next among those who stay. While a unit lies free at the delegate after a refused hand-off, a caller that is not next in order "
+                   "and leaves (cancelled) must be refused, not take the unit. Two-holder rounds (capacity 2, three queued callers): the second holder completes at the instant the first release's "
+                   "further hand-off attempt is refused (or right afterwards) - the two units must be held by the first two callers in order. Every constructor: FromConfig{fifo,lifo,default}, WithDefaults, the "
                    "deprecated Fifo/Lifo constructors (+WithDefaults), FixedPool and Pool with OrderingFIFO/LIFO (also with backlog sizes 0 / -1 = default). Exploration over seeded scenarios.",
-        require=["releases_coinciding_with_a_departure", "grants_checked", "grants_with_a_choice", "releases_with_refused_handoff", "scenarios/fifo", "scenarios/lifo", "constructor/WithDefaults",
+        require=["two_holder_rounds", "departures_while_a_unit_lies_free", "releases_coinciding_with_a_departure", "grants_checked", "grants_with_a_choice", "releases_with_refused_handoff", "scenarios/fifo", "scenarios/lifo", "constructor/WithDefaults",
                  "constructor/NewLifoBlockingLimiterWithDefaults", "constructor/FixedPool{OrderingLIFO}", "constructor/Pool{OrderingFIFO}"],
         rule="scenario = (constructor (20), 6-20 ops: arrival / cancel / time-out of the oldest / release); non-trivial = at least two grants; distinct = distinct (constructor, trace).",
         assumptions=COMMON_ASSUME + ["a caller whose time-out or cancellation coincides with a release may legitimately still be granted (it was queued when the hand-off happened)"],
@@ -231,7 +234,7 @@ CHECKS = {
         level_text="For blocking (timeout 0/T), deadline and queue (FIFO/LIFO, eviction on/off) limiters with capacity exhausted and no release, the "
                    "blocked call must return refused at exactly its bound (backlog timeout, deadline, cancellation instant; cancellation ignored by the "
                    "queue limiter without eviction) - not earlier, not later - with cancellation placed before / at / after arrival and at / after the "
-                   "bound, arrivals before / at / after the deadline; calls for which no bound applies must still be blocked; already-cancelled "
+                   "bound, arrivals before / at / after / less than a millisecond (down to 1 ns) before the deadline; calls for which no bound applies must still be blocked; already-cancelled "
                    "contexts and passed deadlines are refused immediately even with capacity free and leave the busy count unchanged. Virtual time is "
                    "exact, so equality (now == deadline) is exercised. Contexts end by explicit cancel or by their own deadline. A two-waiter "
                    "variant (one release before every bound, the winner keeps the token) requires the loser to be refused at exactly its own bound. Queue limiters with "
@@ -247,12 +250,12 @@ CHECKS = {
     "C12": dict(
         pkg="c12", race=False, shards=(4, 16), timeout_s=(600, 3000),
         technique="quiescence-invariant monitor in a synctest bubble: queue_size gauge (recording registry) = backlog length (verif accessor) = callers inside Acquire <= bound; zero-virtual-time refusal at a full backlog",
-        level_text="PRNG sequences of single arrivals, simultaneous bursts, releases (all outcomes), cancellations and time advances (across backlog "
+        level_text="One single arrival in four comes with an already-done context. PRNG sequences of single arrivals, simultaneous bursts, releases (all outcomes), cancellations and time advances (across backlog "
                    "time-outs) on the queue limiter (FIFO/LIFO/default, eviction on/off, backlog 1-4, capacity 1-2), optionally with yields at the "
                    "check->push, push->select and hand-off windows. At every quiescent point the public queue_size gauge, the backlog length and the "
                    "number of callers whose Acquire has not returned must agree and stay within the bound; an arrival at a full backlog must be "
                    "refused at the instant it arrived; a cancelled caller (eviction on) must have left. Exploration.",
-        require=["scenarios", "quiescent_checks", "arrivals_at_full_backlog", "simultaneous_bursts", "give_ups_overlapping_a_release", "default_bound_cases", "return_instant_backlog_checks", "return_instant_stress_runs"],
+        require=["arrivals_with_a_done_context", "scenarios", "quiescent_checks", "arrivals_at_full_backlog", "simultaneous_bursts", "give_ups_overlapping_a_release", "default_bound_cases", "return_instant_backlog_checks", "return_instant_stress_runs"],
         rule="scenario = (queue config, capacity, 8-32 ops: arrive / burst of 2-5 / release / cancel / sleep); non-trivial = more than 5 quiescent "
              "checks; distinct = distinct (config, op list).",
         assumptions=COMMON_ASSUME,
@@ -265,10 +268,11 @@ CHECKS = {
                    "longest possible wait (random pools: poll period 0 / 7 ms / long): a harness bracket counter (a lower bound of the true "
                    "holders) must never exceed the limit, every caller that did not cancel must be granted (queue pools: within the time-out of its arrival, exact "
                    "virtual time), and once every holder has released nobody may still be inside Acquire. Half of the generic pools hand their strategy a placeholder "
-                   "number different from the limit (the limiter's limit governs). "
+                   "number different from the limit (the limiter's limit governs). Overflow variant: limit + backlog + k simultaneous callers, at most k turned away, at once. After every scenario a second phase: "
+                   "all units held again, one more caller must queue and be served by the next release. "
                    "A real-time stress tier (zero hold, 300 iterations per caller, time-out 1h) must finish without refusals; a run that stops progressing "
                    "with capacity free is classified as stuck (violation), anything else as inconclusive. Exploration.",
-        require=["virtual_scenarios", "virtual_callers_that_had_to_wait", "virtual_scenarios_reaching_the_limit", "virtual_callers_cancelling_while_queued", "virtual_scenarios_with_colliding_timeouts", "stress_runs", "stress_grants"],
+        require=["second_phase_probes", "virtual_scenarios_with_more_callers_than_limit_plus_backlog", "virtual_scenarios", "virtual_callers_that_had_to_wait", "virtual_scenarios_reaching_the_limit", "virtual_callers_cancelling_while_queued", "virtual_scenarios_with_colliding_timeouts", "stress_runs", "stress_grants"],
         rule="virtual scenario = (pool kind, ordering, limit, backlog, callers, per-caller arrival/hold/outcome); stress = (same config, real time); "
              "non-trivial = at least one caller had to wait; distinct = distinct (config, first caller).",
         assumptions=COMMON_ASSUME + ["the bracket counter is incremented after Acquire returned and decremented before completion, so it never over-counts holders"],
@@ -276,7 +280,7 @@ CHECKS = {
     "C02": dict(
         pkg="c02", race=False, shards=(8, 16), timeout_s=(600, 3600),
         technique="conservation monitor: per-layer counts vs harness token ledger after every step / at every quiescent point (synctest), exactly-once accounting of delegate tokens, re-admission of the full limit",
-        level_text="(A) DefaultLimiter over Simple/Precise/Lookup/Predicate, sequential random acquire/complete with all outcomes: strategy busy, bin "
+        level_text="(A') 150 rounds per case in which one holder completes while another caller is being admitted (a user metric registry yields inside the strategy's sample emission): at rest strategy count and limiter gauge equal the tokens outstanding. (A) DefaultLimiter over Simple/Precise/Lookup/Predicate, sequential random acquire/complete with all outcomes: strategy busy, bin "
                    "busy and the limiter's in-flight gauge equal the harness's outstanding tokens after every step. (B) blocking / deadline / queue stacks in a "
                    "synctest bubble with arrivals, bursts, releases, cancellations, time advances across time-outs and releases placed at the very "
                    "instant of a bound, optional yields in the push/hand-off windows: at every quiescent point busy = gauge = outstanding delegate tokens = "
@@ -293,12 +297,12 @@ CHECKS = {
     "C05": dict(
         pkg="c05", race=False, shards=(4, 16), timeout_s=(600, 3000),
         technique="recording limit (scripted or wrapping a real algorithm) + equality monitor on the strategy's enforced limit and partition shares after construction and after every sample-driven update (synctest clock closes windows deterministically)",
-        level_text="DefaultLimiter over Simple/Precise/Lookup/Predicate with a recording core.Limit whose estimate trajectory contains 0, negative, "
+        level_text="One case in six uses an algorithm whose estimate is changed from outside between windows (SettableLimit) - after the next completed window enforcement must follow. DefaultLimiter over Simple/Precise/Lookup/Predicate with a recording core.Limit whose estimate trajectory contains 0, negative, "
                    "repeated and large values (or a real AIMD/Vegas/Gradient2 underneath): right after construction and after every completion during which "
                    "the recorder received an OnSample, the strategy's limit must equal max(1, the estimate the recorder returned) and every partition "
                    "share max(1, ceil(limit x fraction)) of that same value; the lookup strategy's unknown bucket is probed behaviourally. A concurrent "
                    "variant (8 goroutines completing) checks the equality at quiescence. Exploration.",
-        require=["enforcement_checks", "share_checks", "updates_observed", "unknown_bucket_probes", "concurrent_scenarios", "add_vs_update_rounds_with_an_update",
+        require=["out_of_band_estimate_changes", "enforcement_checks", "share_checks", "updates_observed", "unknown_bucket_probes", "concurrent_scenarios", "add_vs_update_rounds_with_an_update",
                  "scenarios/simple", "scenarios/precise", "scenarios/lookup", "scenarios/predicate"],
         rule="scenario = (strategy kind with dyadic fractions, scripted trajectory or real algorithm, windowSize 10-13, 150-550 driver steps or 8x40 "
              "concurrent iterations); non-trivial = at least two updates observed; distinct = distinct (config, update count).",
@@ -316,7 +320,8 @@ CHECKS = {
                    "returned) reached the limit. A verif yield inside the simple strategy's check-then-add is active in half of the runs. Exploration of "
                    "the interleavings a 16-core scheduler produces. M3: 4-12 goroutines close sample windows back to back (scripted trajectory or AIMD) over a strategy "
                    "wrapper that is slow inside SetLimit; at the instant each SetLimit(v) is applied the algorithm's estimate must still be v, and at rest after every "
-                   "burst the enforced limit equals the estimate and a sequential probe is granted exactly that many times.",
+                   "burst the enforced limit equals the estimate and a sequential probe is granted exactly that many times. In all modes the number handed to the "
+                   "strategy's constructor is a placeholder (equal, 1, or larger): the limiter must seed the strategy with the algorithm's value.",
         require=["m1_histories", "m1_histories_linearizable", "m1_overlapping_operation_pairs", "m1_sample_driven_limit_updates", "m2_runs", "m2_refusals_checked", "m3_setlimit_applications_checked", "m3_probes_at_rest"],
         rule="M1 history = (target, algorithm, 2-8 goroutines x 2-10 pre-drawn ops); M2 run = (target, limit, goroutines, hold style); non-trivial = at least "
              "one overlapping operation pair (M1) / grants and refusals both occurred (M2); distinct = distinct (config, op count, overlaps).",
